@@ -4,23 +4,44 @@ from hypothesis import HealthCheck, Phase, given, seed as hseed, settings
 from hypothesis import strategies as st
 
 
-def generate(strategy, n, seed, fn, shrink=False):
+def generate(strategy, n, seed, fn, shrink=False, skip_minimal=None):
     """
     Draw ``n`` examples from ``strategy`` (a pure function of ``seed``) and call ``fn`` on each.
     ``fn`` must not raise for property violations - it reports them through its collector - so
     that generation continues behind the first failure (DESIGN 3.5).
+
+    Hypothesis always starts with the minimal example of the strategy; with 16+ shards of a few
+    cases each that would spend a large share of the budget on one identical case, so every
+    shard but the first (seed % 1000 == 0) draws one more example and skips the first.
     """
     phases = [Phase.generate] + ([Phase.shrink] if shrink else [])
+    if skip_minimal is None:
+        skip_minimal = int(seed) % 1000 != 0
+    state = {"first": True}
 
     @hseed(int(seed))
-    @settings(max_examples=int(n), database=None, deadline=None, derandomize=False,
-              phases=phases, report_multiple_bugs=False,
+    @settings(max_examples=int(n) + (1 if skip_minimal else 0), database=None, deadline=None,
+              derandomize=False, phases=phases, report_multiple_bugs=False,
               suppress_health_check=list(HealthCheck))
     @given(strategy)
     def _run(x):
+        if state["first"]:
+            state["first"] = False
+            if skip_minimal:
+                return
         fn(x)
 
     _run()
+
+
+def weighted(alternatives):
+    """
+    Uniform choice among the listed strategies (repeat an entry to weight it).  Unlike
+    st.one_of this does not flatten nested one_of's, so an entry that itself has many
+    alternatives (e.g. 'link' = 10 owner/role pairs) is not 10 times as likely as a simple one.
+    """
+    alternatives = list(alternatives)
+    return st.integers(0, len(alternatives) - 1).flatmap(lambda i: alternatives[i])
 
 
 # names ---------------------------------------------------------------------------------
